@@ -109,6 +109,31 @@ Section PathSafe.
     apply Forall_forall. intros s _. apply stmt_safe'.
   Qed.
 
+  (* a construct in which U does not occur never trips the scanner *)
+  Lemma mentions_inner l :
+    (fix ml (l : list rstmt) : bool := match l with [] => false | x :: r => mentions U x || ml r end) l = mentionsl U l.
+  Proof. induction l as [|x r IH]; [reflexivity|]. simpl. rewrite IH. reflexivity. Qed.
+
+  Lemma no_mention_list o : forall l, Forall (fun s => mentions U s = false -> forall ctx a, exists a', scanb X U a (rrun o s ctx) = Some a') l ->
+    mentionsl U l = false -> forall ctx a, exists a', scanb X U a (rrunl o l ctx) = Some a'.
+  Proof.
+    induction 1 as [|x r Hx Hr IH]; intros Hm ctx a; [exists a; reflexivity|].
+    simpl in Hm. apply orb_false_iff in Hm as [Hm1 Hm2]. cbn [rrunl]. rewrite scanb_app.
+    destruct (Hx Hm1 ctx a) as [a1 ->]. apply IH. exact Hm2.
+  Qed.
+
+  Lemma no_mention_scan o : forall s, mentions U s = false -> forall ctx a, exists a', scanb X U a (rrun o s ctx) = Some a'.
+  Proof.
+    apply (rstmt_ind' (fun s => mentions U s = false -> forall ctx a, exists a', scanb X U a (rrun o s ctx) = Some a')).
+    - intros id core bar rd wr Hm ctx a. cbn [rrun mentions] in *. destruct bar; [cbn [scanb]; eexists; reflexivity|].
+      cbn [negb andb] in Hm. cbn [scanb]. unfold opid. cbn [o_name hd]. rewrite Hm. cbn [andb]. eexists. reflexivity.
+    - intros id b Hb Hm ctx a. cbn [mentions] in Hm. rewrite mentions_inner in Hm. rewrite rrun_For.
+      revert a. induction (seq 0 (rtrip o id ctx)) as [|i is IHs]; intros a; simpl; [eexists; reflexivity|].
+      rewrite scanb_app. destruct (no_mention_list o b Hb Hm (i :: ctx) a) as [a1 ->]. apply IHs.
+    - intros id t e Ht He Hm ctx a. cbn [mentions] in Hm. rewrite !mentions_inner in Hm. apply orb_false_iff in Hm as [Hm1 Hm2].
+      rewrite rrun_If. destruct (rcond o id ctx); [apply (no_mention_list o t Ht Hm1) | apply (no_mention_list o e He Hm2)].
+  Qed.
+
   (* the outermost block (executed once) *)
   Lemma top_safe : forall l, guardedl_top X U l = true ->
     (forall o ctx, scanb X U false (rrunl o l ctx) <> None) /\
@@ -116,6 +141,14 @@ Section PathSafe.
   Proof.
     induction l as [|x r IH]; intros Hg; [split; intros; simpl; discriminate|].
     cbn [guardedl_top] in Hg. apply andb_true_iff in Hg as [Hgx Hgr]. destruct (IH Hgr) as [IH1 IH2].
+    assert (Hcons : forall s, guarded X U s = true -> (match s with RLeaf _ _ _ _ _ => False | _ => True end) ->
+              (forall o ctx, scanb X U false (rrun o s ctx ++ rrunl o r ctx) <> None) /\
+              (negb (mentions U s) && bar_follows_top U r = true -> forall o ctx, scanb X U true (rrun o s ctx ++ rrunl o r ctx) <> None)).
+    { intros s Hgs Hs. split.
+      - intros o ctx. rewrite scanb_app. pose proof (stmt_safe' s) as Hq. destruct s; [destruct Hs | |];
+          rewrite (Hq Hgs o ctx); apply IH1.
+      - intros Hb o ctx. apply andb_true_iff in Hb as [Hm Hb]. apply negb_true_iff in Hm. rewrite scanb_app.
+        destruct (no_mention_scan o s Hm ctx true) as [a' ->]. destruct a'; [apply IH2; exact Hb | apply IH1]. }
     destruct x as [id core bar rd wr | id b | id t e].
     - split.
       + intros o ctx. cbn [rrunl rrun]. destruct bar; simpl.
@@ -125,10 +158,8 @@ Section PathSafe.
       + intros Hb o ctx. cbn [bar_follows_top] in Hb. cbn [rrunl rrun]. destruct bar; simpl.
         * apply IH1.
         * unfold opid. simpl. destruct (id =? U) eqn:E; [discriminate|]. simpl. apply IH2. exact Hb.
-    - split; [|discriminate]. intros o ctx. cbn [rrunl]. rewrite scanb_app.
-      pose proof (stmt_safe' (RFor id b) Hgx o ctx) as Hq. rewrite Hq. apply IH1.
-    - split; [|discriminate]. intros o ctx. cbn [rrunl]. rewrite scanb_app.
-      pose proof (stmt_safe' (RIf id t e) Hgx o ctx) as Hq. rewrite Hq. apply IH1.
+    - destruct (Hcons (RFor id b) Hgx I) as [H1 H2]. split; [exact H1 | exact H2].
+    - destruct (Hcons (RIf id t e) Hgx I) as [H1 H2]. split; [exact H1 | exact H2].
   Qed.
 
   Theorem guarded_top_path_safe : forall prog, guardedl_top X U prog = true ->
@@ -447,4 +478,351 @@ Theorem straightline_pass_drf : forall p0 flat, straight p0 flat ->
 Proof.
   intros p0 flat Hs o ss m H. apply all_guarded_any_interleaving; [|exact H].
   apply (straightline_pass_all_guarded p0 flat Hs).
+Qed.
+
+(* ---- end to end for single-loop kernels: pre ; scf.for { body } ; post ------------------------------- *)
+Lemma mentions_leaf U y : mentions U (leaf_of y) = negb (is_sync y) && (oi_id y =? U).
+Proof. reflexivity. Qed.
+
+Lemma mentions_for_leaves U f : forall L, (forall z, In z L -> is_sync z = true \/ oi_id z <> U) ->
+  mentions U (RFor f (map leaf_of L)) = false.
+Proof.
+  intros L H. cbn [mentions]. induction L as [|z r IH]; [reflexivity|]. cbn [map].
+  rewrite mentions_leaf. rewrite IH by (intros w Hw; apply H; right; exact Hw). rewrite orb_false_r.
+  destruct (H z (or_introl eq_refl)) as [Hs|Hn]; [rewrite Hs; reflexivity|].
+  replace (oi_id z =? U) with false by (symmetry; apply Z.eqb_neq; exact Hn). apply andb_false_r.
+Qed.
+
+Lemma guardedl_noX X U : forall l, (forall z, In z l -> is_sync z = true \/ oi_id z <> X) ->
+  guardedl X U (map leaf_of l) = true.
+Proof.
+  induction l as [|z r IH]; intros H; [reflexivity|]. cbn [map guardedl leaf_of].
+  rewrite IH by (intros w Hw; apply H; right; exact Hw). rewrite andb_true_r.
+  destruct (H z (or_introl eq_refl)) as [Hs|Hn]; [rewrite Hs, andb_false_r; reflexivity|].
+  replace (oi_id z =? X) with false by (symmetry; apply Z.eqb_neq; exact Hn). reflexivity.
+Qed.
+
+Lemma guardedl_split X U : forall A x B,
+  (forall z, In z A -> is_sync z = true \/ oi_id z <> X) ->
+  (forall z, In z B -> is_sync z = true \/ oi_id z <> X) ->
+  bar_follows U (map leaf_of B) = true ->
+  guardedl X U (map leaf_of (A ++ x :: B)) = true.
+Proof.
+  induction A as [|z r IH]; intros x B HA HB Hbf.
+  - cbn [app map guardedl leaf_of]. rewrite (guardedl_noX X U B HB), andb_true_r.
+    destruct ((oi_id x =? X) && negb (is_sync x)); [exact Hbf | reflexivity].
+  - cbn [app map guardedl leaf_of]. rewrite IH; [|intros w Hw; apply HA; right; exact Hw | exact HB | exact Hbf].
+    rewrite andb_true_r. destruct (HA z (or_introl eq_refl)) as [Hs|Hn]; [rewrite Hs, andb_false_r; reflexivity|].
+    replace (oi_id z =? X) with false by (symmetry; apply Z.eqb_neq; exact Hn). reflexivity.
+Qed.
+
+Lemma bar_follows_sync U : forall seg rest,
+  (exists s, In s seg /\ is_sync s = true) -> (forall z, In z seg -> is_sync z = true \/ oi_id z <> U) ->
+  bar_follows U (map leaf_of (seg ++ rest)) = true.
+Proof.
+  induction seg as [|z r IH]; intros rest [s [Hs Hss]] H; [destruct Hs|].
+  cbn [app map bar_follows leaf_of]. destruct (is_sync z) eqn:Es; [reflexivity|].
+  destruct (H z (or_introl eq_refl)) as [Hz|Hn]; [congruence|].
+  replace (oi_id z =? U) with false by (symmetry; apply Z.eqb_neq; exact Hn).
+  apply IH.
+  - destruct Hs as [<-|Hs]; [congruence|]. exists s. split; assumption.
+  - intros w Hw. apply H. right. exact Hw.
+Qed.
+
+Lemma gtop_app_noX X U T : forall A, (forall z, In z A -> is_sync z = true \/ oi_id z <> X) ->
+  guardedl_top X U (map leaf_of A ++ T) = guardedl_top X U T.
+Proof.
+  induction A as [|z r IH]; intros H; [reflexivity|]. cbn [map app guardedl_top leaf_of].
+  rewrite IH by (intros w Hw; apply H; right; exact Hw).
+  destruct (H z (or_introl eq_refl)) as [Hs|Hn]; [rewrite Hs, andb_false_r; reflexivity|].
+  replace (oi_id z =? X) with false by (symmetry; apply Z.eqb_neq; exact Hn). reflexivity.
+Qed.
+
+Lemma gtop_split_T X U T : forall A x B,
+  (forall z, In z A -> is_sync z = true \/ oi_id z <> X) ->
+  (forall z, In z B -> is_sync z = true \/ oi_id z <> X) ->
+  guardedl_top X U T = true ->
+  bar_follows_top U (map leaf_of B ++ T) = true ->
+  guardedl_top X U (map leaf_of (A ++ x :: B) ++ T) = true.
+Proof.
+  intros A x B HA HB HT Hbf. rewrite map_app, <- app_assoc. rewrite gtop_app_noX by exact HA.
+  cbn [map app guardedl_top leaf_of]. rewrite (gtop_app_noX X U T B HB), HT, andb_true_r.
+  destruct ((oi_id x =? X) && negb (is_sync x)); [exact Hbf | reflexivity].
+Qed.
+
+Lemma bft_sync_T U T : forall seg rest,
+  (exists s, In s seg /\ is_sync s = true) -> (forall z, In z seg -> is_sync z = true \/ oi_id z <> U) ->
+  bar_follows_top U (map leaf_of (seg ++ rest) ++ T) = true.
+Proof.
+  induction seg as [|z r IH]; intros rest [s [Hs Hss]] H; [destruct Hs|].
+  cbn [app map bar_follows_top leaf_of]. destruct (is_sync z) eqn:Es; [reflexivity|].
+  destruct (H z (or_introl eq_refl)) as [Hz|Hn]; [congruence|].
+  replace (oi_id z =? U) with false by (symmetry; apply Z.eqb_neq; exact Hn).
+  apply IH.
+  - destruct Hs as [<-|Hs]; [congruence|]. exists s. split; assumption.
+  - intros w Hw. apply H. right. exact Hw.
+Qed.
+
+Lemma bft_noU_T U T : forall B, (forall z, In z B -> is_sync z = true \/ oi_id z <> U) ->
+  bar_follows_top U T = true -> bar_follows_top U (map leaf_of B ++ T) = true.
+Proof.
+  induction B as [|z r IH]; intros H HT; [exact HT|]. cbn [map app bar_follows_top leaf_of].
+  destruct (is_sync z) eqn:Es; [reflexivity|].
+  destruct (H z (or_introl eq_refl)) as [Hz|Hn]; [congruence|].
+  replace (oi_id z =? U) with false by (symmetry; apply Z.eqb_neq; exact Hn).
+  apply IH; [intros w Hw; apply H; right; exact Hw | exact HT].
+Qed.
+
+Lemma in_ins_maybe bars l y z : In z (insert_syncs bars l ++ maybe_sync bars y) -> In z l \/ is_sync z = true.
+Proof.
+  intros H. apply in_app_or in H as [H|H]; [apply in_insert_syncs_inv in H; exact H|].
+  unfold maybe_sync in H. destruct (memb (oi_id y) bars); [|destruct H]. destruct H as [<-|[]]. right. reflexivity.
+Qed.
+
+Definition lp_wf (p0 : Z) (q : loopprog) : Prop :=
+  (forall y, In y (lp_pre q) \/ y = lp_for q \/ In y (lp_post q) -> oi_parent y = p0) /\
+  (forall y, In y (lp_body q) \/ y = lp_yield q ->
+     oi_parent y = oi_id (lp_for q) /\ oi_pfor y = true /\ oi_pyield y = oi_id (lp_yield q)) /\
+  NoDup (map oi_id (lp_flat q)) /\
+  core_of (lp_for q) = -1 /\ core_of (lp_yield q) = -1 /\ is_sync (lp_for q) = false /\ is_sync (lp_yield q) = false.
+
+(* every DM/compute pair that shares a value lies in one region (before the loop, in its body, after it) *)
+Definition lp_local (q : loopprog) : Prop :=
+  forall x u, In x (lp_flat q) -> In u (lp_flat q) -> must_sync x u = true -> 0 <= core_of u ->
+  (In x (lp_pre q) /\ In u (lp_pre q)) \/ (In x (lp_body q) /\ In u (lp_body q)) \/ (In x (lp_post q) /\ In u (lp_post q)).
+
+Lemma split_two {A} (l : list A) x u : In x l -> In u l -> x <> u ->
+  exists l1 l2 l3, l = l1 ++ x :: l2 ++ u :: l3 \/ l = l1 ++ u :: l2 ++ x :: l3.
+Proof. apply two_positions. Qed.
+
+Theorem loop_pass_all_guarded : forall p0 q, lp_wf p0 q -> lp_local q ->
+  all_guarded (lp_tree (barriers (lp_flat q)) q) = true.
+Proof.
+  intros p0 q [Hpar [Hbody [Hnd [Cf [Cy [Sf Sy]]]]]] Hloc.
+  set (flat := lp_flat q) in *. set (bars := barriers flat).
+  set (f := lp_for q) in *. set (yld := lp_yield q) in *.
+  set (Lpre := insert_syncs bars (lp_pre q) ++ maybe_sync bars f).
+  set (Lbody := insert_syncs bars (lp_body q) ++ maybe_sync bars yld).
+  set (Lpost := insert_syncs bars (lp_post q)).
+  assert (Etree : lp_tree bars q = map leaf_of Lpre ++ RFor (oi_id f) (map leaf_of Lbody) :: map leaf_of Lpost) by reflexivity.
+  unfold all_guarded. apply forallb_forall. intros a Ha. apply forallb_forall. intros b Hb.
+  destruct (static_conflict a b) eqn:Esc; [|reflexivity]. simpl.
+  (* leaves of the tree are the non-sync original ops of the three regions *)
+  assert (Hleaf : forall c, In c (leavesl (lp_tree bars q)) ->
+            exists y, (In y (lp_pre q) \/ In y (lp_body q) \/ In y (lp_post q)) /\ is_sync y = false /\
+                      c = (oi_id y, core_of y, [], oi_operands y)).
+  { intros c Hc. rewrite Etree in Hc. unfold leavesl in Hc. rewrite flat_map_app in Hc. cbn [flat_map leaves] in Hc.
+    rewrite leaves_inner in Hc. fold (leavesl (map leaf_of Lpre)) in Hc. fold (leavesl (map leaf_of Lpost)) in Hc.
+    assert (Hone : forall L, In c (leavesl (map leaf_of L)) -> exists y, In y L /\ is_sync y = false /\ c = (oi_id y, core_of y, [], oi_operands y)).
+    { intros L H. unfold leavesl in H. apply in_flat_map in H as [s [Hs H]]. apply in_map_iff in Hs as [y [<- Hy]].
+      unfold leaf_of in H. simpl in H. destruct (is_sync y) eqn:Es; [destruct H|]. destruct H as [<-|[]]. exists y. repeat split; assumption. }
+    apply in_app_or in Hc as [Hc|Hc]; [|apply in_app_or in Hc as [Hc|Hc]].
+    - destruct (Hone _ Hc) as [y [Hy [Hs ->]]]. exists y. split; [|split; [exact Hs | reflexivity]].
+      apply in_ins_maybe in Hy as [Hy|Hy]; [left; exact Hy | congruence].
+    - destruct (Hone _ Hc) as [y [Hy [Hs ->]]]. exists y. split; [|split; [exact Hs | reflexivity]].
+      apply in_ins_maybe in Hy as [Hy|Hy]; [right; left; exact Hy | congruence].
+    - destruct (Hone _ Hc) as [y [Hy [Hs ->]]]. exists y. split; [|split; [exact Hs | reflexivity]].
+      apply in_insert_syncs_inv in Hy as [Hy|Hy]; [right; right; exact Hy | congruence]. }
+  destruct (Hleaf a Ha) as [x [Rx [Sx ->]]]. destruct (Hleaf b Hb) as [u [Ru [Su ->]]]. cbn [fst].
+  unfold static_conflict in Esc. apply andb_true_iff in Esc as [Esc Ecf]. apply andb_true_iff in Esc as [Esc Ene].
+  apply andb_true_iff in Esc as [Cx Cu]. apply negb_true_iff in Ene. apply Z.eqb_neq in Ene.
+  assert (Hms : must_sync x u = true).
+  { unfold must_sync. rewrite (shares_of_conflict x u Ecf), andb_true_r. unfold cross_core, is_dm, is_compute.
+    unfold core_of in Cx, Cu, Ene. destruct (oi_kind x), (oi_kind u); simpl in *; try reflexivity; try discriminate; congruence. }
+  assert (Hxu : x <> u) by (intros ->; apply Ene; reflexivity).
+  assert (Hflat : forall y, In y (lp_pre q) \/ In y (lp_body q) \/ In y (lp_post q) -> In y flat).
+  { intros y [H|[H|H]]; unfold flat, lp_flat; apply in_or_app; [left; exact H | right; right | right; right];
+      apply in_or_app; [left; exact H | right; right; exact H]. }
+  destruct (Hloc x u (Hflat x Rx) (Hflat u Ru) Hms ltac:(lia)) as [[Px Pu]|[[Bx Bu]|[Qx Qu]]].
+  - (* both before the loop *)
+    destruct (split_two (lp_pre q) x u Px Pu Hxu) as [a1 [l2 [a3 [E|E]]]].
+    + assert (Ef : flat = a1 ++ x :: l2 ++ u :: (a3 ++ f :: lp_body q ++ yld :: lp_post q)).
+      { unfold flat, lp_flat. rewrite E. rewrite <- !app_assoc. simpl. rewrite <- !app_assoc. reflexivity. }
+      rewrite Ef in Hnd. destruct (ids_distinct_3 _ _ _ _ _ Hnd) as [Nxu Nz].
+      assert (Hseg : seg_ok flat (oi_parent x) (l2 ++ [u]) = true).
+      { unfold seg_ok. apply forallb_forall. intros y Hy. apply orb_true_iff. left. apply Z.eqb_eq.
+        rewrite (Hpar x (or_introl Px)). apply Hpar. left. rewrite E. apply in_or_app. right. right.
+        apply in_app_or in Hy as [Hy|[<-|[]]]; apply in_or_app; [left; exact Hy | right; left; reflexivity]. }
+      destruct (barrier_between_ssa_deps_partial flat a1 x l2 u _ Ef Hms Hseg) as [_ [Hsub Hsync]].
+      rewrite Etree.
+      assert (ELpre : Lpre = (insert_syncs bars a1 ++ maybe_sync bars x) ++ x ::
+                            (out_between bars l2 u ++ u :: insert_syncs bars a3 ++ maybe_sync bars f)).
+      { unfold Lpre, out_between, maybe_sync. rewrite E.
+        replace (a1 ++ x :: l2 ++ u :: a3) with (a1 ++ [x] ++ l2 ++ [u] ++ a3) by reflexivity.
+        rewrite !insert_syncs_app, !insert_syncs_one. repeat (rewrite <- app_assoc; cbn [app]). reflexivity. }
+      rewrite ELpre. apply gtop_split_T.
+      * intros z Hz. apply in_ins_maybe in Hz as [Hz|Hz]; [right; apply (Nz z); left; exact Hz | left; exact Hz].
+      * intros z Hz. apply in_app_or in Hz as [Hz|[<-|Hz]].
+        { destruct (Hsub z Hz) as [H|H]; [right; apply (Nz z); right; left; exact H | left; exact H]. }
+        { right. intros E'. apply Nxu. symmetry. exact E'. }
+        { apply in_ins_maybe in Hz as [Hz|Hz]; [right; apply (Nz z); right; right; apply in_or_app; left; exact Hz | left; exact Hz]. }
+      * cbn [guardedl_top]. rewrite guarded_For. rewrite guardedl_noX, guardedl_top_noX; [reflexivity | |].
+        { intros z Hz. apply in_insert_syncs_inv in Hz as [Hz|Hz]; [right | left; exact Hz].
+          apply (Nz z). right. right. apply in_or_app. right. right. apply in_or_app. right. right. exact Hz. }
+        { intros z Hz. apply in_ins_maybe in Hz as [Hz|Hz]; [right | left; exact Hz].
+          apply (Nz z). right. right. apply in_or_app. right. right. apply in_or_app. left. exact Hz. }
+      * apply bft_sync_T.
+        { destruct Hsync as [s [H1 [H2 _]]]. exists s. split; assumption. }
+        { intros z Hz. destruct (Hsub z Hz) as [H|H]; [right; apply (Nz z); right; left; exact H | left; exact H]. }
+    + assert (Ef : flat = a1 ++ u :: l2 ++ x :: (a3 ++ f :: lp_body q ++ yld :: lp_post q)).
+      { unfold flat, lp_flat. rewrite E. rewrite <- !app_assoc. simpl. rewrite <- !app_assoc. reflexivity. }
+      rewrite Ef in Hnd. destruct (ids_distinct_3 _ _ _ _ _ Hnd) as [Nux Nz].
+      rewrite Etree.
+      assert (ELpre : Lpre = (insert_syncs bars a1 ++ maybe_sync bars u ++ u :: out_between bars l2 x) ++ x ::
+                            (insert_syncs bars a3 ++ maybe_sync bars f)).
+      { unfold Lpre, out_between, maybe_sync. rewrite E.
+        replace (a1 ++ u :: l2 ++ x :: a3) with (a1 ++ [u] ++ l2 ++ [x] ++ a3) by reflexivity.
+        rewrite !insert_syncs_app, !insert_syncs_one. repeat (rewrite <- app_assoc; cbn [app]). reflexivity. }
+      rewrite ELpre. apply gtop_split_T.
+      * intros z Hz. apply in_app_or in Hz as [Hz|Hz]; [apply in_insert_syncs_inv in Hz as [Hz|Hz]; [right; apply (Nz z); left; exact Hz | left; exact Hz]|].
+        apply in_app_or in Hz as [Hz|[<-|Hz]].
+        { unfold maybe_sync in Hz. destruct (memb (oi_id u) bars); [|destruct Hz]. destruct Hz as [<-|[]]. left. reflexivity. }
+        { right. exact Nux. }
+        { unfold out_between in Hz. apply in_app_or in Hz as [Hz|Hz].
+          - apply in_insert_syncs_inv in Hz as [Hz|Hz]; [right; apply (Nz z); right; left; exact Hz | left; exact Hz].
+          - destruct (memb (oi_id x) bars); [|destruct Hz]. destruct Hz as [<-|[]]. left. reflexivity. }
+      * intros z Hz. apply in_ins_maybe in Hz as [Hz|Hz]; [right; apply (Nz z); right; right; apply in_or_app; left; exact Hz | left; exact Hz].
+      * cbn [guardedl_top]. rewrite guarded_For. rewrite guardedl_noX, guardedl_top_noX; [reflexivity | |].
+        { intros z Hz. apply in_insert_syncs_inv in Hz as [Hz|Hz]; [right | left; exact Hz].
+          apply (Nz z). right. right. apply in_or_app. right. right. apply in_or_app. right. right. exact Hz. }
+        { intros z Hz. apply in_ins_maybe in Hz as [Hz|Hz]; [right | left; exact Hz].
+          apply (Nz z). right. right. apply in_or_app. right. right. apply in_or_app. left. exact Hz. }
+      * apply bft_noU_T.
+        { intros z Hz. apply in_ins_maybe in Hz as [Hz|Hz]; [right; apply (Nz z); right; right; apply in_or_app; left; exact Hz | left; exact Hz]. }
+        { cbn [bar_follows_top]. rewrite mentions_for_leaves.
+          - simpl. apply bar_follows_top_noU. intros z Hz. apply in_insert_syncs_inv in Hz as [Hz|Hz]; [right | left; exact Hz].
+            apply (Nz z). right. right. apply in_or_app. right. right. apply in_or_app. right. right. exact Hz.
+          - intros z Hz. apply in_ins_maybe in Hz as [Hz|Hz]; [right | left; exact Hz].
+            apply (Nz z). right. right. apply in_or_app. right. right. apply in_or_app. left. exact Hz. }
+  - (* both in the loop body *)
+    assert (HpreX : forall X', (forall z, In z (lp_pre q) \/ z = f -> oi_id z <> X') ->
+              forall z, In z Lpre -> is_sync z = true \/ oi_id z <> X').
+    { intros X' H z Hz. apply in_ins_maybe in Hz as [Hz|Hz]; [right; apply H; left; exact Hz | left; exact Hz]. }
+    destruct (split_two (lp_body q) x u Bx Bu Hxu) as [b1 [l2 [b3 [E|E]]]].
+    + assert (Ef : flat = (lp_pre q ++ f :: b1) ++ x :: l2 ++ u :: (b3 ++ yld :: lp_post q)).
+      { unfold flat, lp_flat. rewrite E. rewrite <- !app_assoc. simpl. rewrite <- !app_assoc. reflexivity. }
+      rewrite Ef in Hnd. destruct (ids_distinct_3 _ _ _ _ _ Hnd) as [Nxu Nz].
+      destruct (Hbody x (or_introl Bx)) as [Px [Fx Yx]].
+      assert (Hseg : seg_ok flat (oi_parent x) (l2 ++ [u]) = true).
+      { unfold seg_ok. apply forallb_forall. intros y Hy. apply orb_true_iff. left. apply Z.eqb_eq.
+        rewrite Px. apply Hbody. left. rewrite E. apply in_or_app. right. right.
+        apply in_app_or in Hy as [Hy|[<-|[]]]; apply in_or_app; [left; exact Hy | right; left; reflexivity]. }
+      destruct (barrier_between_ssa_deps_partial flat _ x l2 u _ Ef Hms Hseg) as [_ [Hsub Hsync]].
+      rewrite Etree. rewrite gtop_app_noX.
+      2:{ intros z Hz. apply in_ins_maybe in Hz as [Hz|Hz]; [right | left; exact Hz].
+          apply (Nz z). left. apply in_or_app. left. exact Hz. }
+      cbn [guardedl_top]. rewrite guarded_For. rewrite guardedl_top_noX.
+      2:{ intros z Hz. apply in_insert_syncs_inv in Hz as [Hz|Hz]; [right | left; exact Hz].
+          apply (Nz z). right. right. apply in_or_app. right. right. exact Hz. }
+      rewrite andb_true_r.
+      assert (EL : Lbody = (insert_syncs bars b1 ++ maybe_sync bars x) ++ x ::
+                           (out_between bars l2 u ++ u :: insert_syncs bars b3 ++ maybe_sync bars yld)).
+      { unfold Lbody, out_between, maybe_sync. rewrite E.
+        replace (b1 ++ x :: l2 ++ u :: b3) with (b1 ++ [x] ++ l2 ++ [u] ++ b3) by reflexivity.
+        rewrite !insert_syncs_app, !insert_syncs_one. repeat (rewrite <- app_assoc; cbn [app]). reflexivity. }
+      rewrite EL. apply guardedl_split.
+      * intros z Hz. apply in_ins_maybe in Hz as [Hz|Hz]; [right; apply (Nz z); left; apply in_or_app; right; right; exact Hz | left; exact Hz].
+      * intros z Hz. apply in_app_or in Hz as [Hz|[<-|Hz]].
+        { destruct (Hsub z Hz) as [H|H]; [right; apply (Nz z); right; left; exact H | left; exact H]. }
+        { right. intros E'. apply Nxu. symmetry. exact E'. }
+        { apply in_ins_maybe in Hz as [Hz|Hz]; [right; apply (Nz z); right; right; apply in_or_app; left; exact Hz | left; exact Hz]. }
+      * apply bar_follows_sync.
+        { destruct Hsync as [s [H1 [H2 _]]]. exists s. split; assumption. }
+        { intros z Hz. destruct (Hsub z Hz) as [H|H]; [right; apply (Nz z); right; left; exact H | left; exact H]. }
+    + (* u precedes x in the body: the barrier before the yield guards the back-edge *)
+      assert (Ef : flat = (lp_pre q ++ f :: b1) ++ u :: l2 ++ x :: (b3 ++ yld :: lp_post q)).
+      { unfold flat, lp_flat. rewrite E. rewrite <- !app_assoc. simpl. rewrite <- !app_assoc. reflexivity. }
+      rewrite Ef in Hnd. destruct (ids_distinct_3 _ _ _ _ _ Hnd) as [Nux Nz].
+      destruct (Hbody x (or_introl Bx)) as [Px [Fx Yx]]. destruct (Hbody u (or_introl Bu)) as [Pu _].
+      assert (Ef2 : flat = ((lp_pre q ++ f :: b1) ++ u :: l2) ++ x :: b3 ++ yld :: lp_post q).
+      { rewrite Ef. rewrite <- !app_assoc. reflexivity. }
+      assert (Hseg : seg_ok flat (oi_parent x) (b3 ++ [yld]) = true).
+      { unfold seg_ok. apply forallb_forall. intros y Hy. apply orb_true_iff. left. apply Z.eqb_eq.
+        rewrite Px. apply in_app_or in Hy as [Hy|[<-|[]]].
+        - apply Hbody. left. rewrite E. apply in_or_app. right. right. apply in_or_app. right. right. exact Hy.
+        - apply Hbody. right. reflexivity. }
+      assert (Hspf : same_parent_for x u = true).
+      { unfold same_parent_for. rewrite Px, Pu, Z.eqb_refl, Fx. reflexivity. }
+      destruct (barrier_on_backedge_partial flat _ x b3 yld (lp_post q) u Ef2 (Hflat u Ru) Hms Hspf (eq_sym Yx) Hseg) as [_ [Hsub Hsync]].
+      rewrite Etree. rewrite gtop_app_noX.
+      2:{ intros z Hz. apply in_ins_maybe in Hz as [Hz|Hz]; [right | left; exact Hz].
+          apply (Nz z). left. apply in_or_app. left. exact Hz. }
+      cbn [guardedl_top]. rewrite guarded_For. rewrite guardedl_top_noX.
+      2:{ intros z Hz. apply in_insert_syncs_inv in Hz as [Hz|Hz]; [right | left; exact Hz].
+          apply (Nz z). right. right. apply in_or_app. right. right. exact Hz. }
+      rewrite andb_true_r.
+      assert (EL : Lbody = (insert_syncs bars b1 ++ maybe_sync bars u ++ u :: out_between bars l2 x) ++ x ::
+                           (out_between bars b3 yld)).
+      { unfold Lbody, out_between, maybe_sync. rewrite E.
+        replace (b1 ++ u :: l2 ++ x :: b3) with (b1 ++ [u] ++ l2 ++ [x] ++ b3) by reflexivity.
+        rewrite !insert_syncs_app, !insert_syncs_one. repeat (rewrite <- app_assoc; cbn [app]). reflexivity. }
+      rewrite EL. apply guardedl_split.
+      * intros z Hz. apply in_app_or in Hz as [Hz|Hz]; [apply in_insert_syncs_inv in Hz as [Hz|Hz]; [right; apply (Nz z); left; apply in_or_app; right; right; exact Hz | left; exact Hz]|].
+        apply in_app_or in Hz as [Hz|[<-|Hz]].
+        { unfold maybe_sync in Hz. destruct (memb (oi_id u) bars); [|destruct Hz]. destruct Hz as [<-|[]]. left. reflexivity. }
+        { right. exact Nux. }
+        { unfold out_between in Hz. apply in_app_or in Hz as [Hz|Hz].
+          - apply in_insert_syncs_inv in Hz as [Hz|Hz]; [right; apply (Nz z); right; left; exact Hz | left; exact Hz].
+          - destruct (memb (oi_id x) bars); [|destruct Hz]. destruct Hz as [<-|[]]. left. reflexivity. }
+      * intros z Hz. destruct (Hsub z Hz) as [H|H]; [right; apply (Nz z); right; right; apply in_or_app; left; exact H | left; exact H].
+      * rewrite <- (app_nil_r (out_between bars b3 yld)). apply bar_follows_sync.
+        { destruct Hsync as [s [H1 [H2 _]]]. exists s. split; assumption. }
+        { intros z Hz. destruct (Hsub z Hz) as [H|H]; [right; apply (Nz z); right; right; apply in_or_app; left; exact H | left; exact H]. }
+  - (* both behind the loop: as in a straight-line function *)
+    destruct (split_two (lp_post q) x u Qx Qu Hxu) as [p1 [l2 [p3 [E|E]]]].
+    + assert (Ef : flat = (lp_pre q ++ f :: lp_body q ++ yld :: p1) ++ x :: l2 ++ u :: p3).
+      { unfold flat, lp_flat. rewrite E. rewrite <- !app_assoc. simpl. rewrite <- !app_assoc. reflexivity. }
+      rewrite Ef in Hnd. destruct (ids_distinct_3 _ _ _ _ _ Hnd) as [Nxu Nz].
+      assert (Hseg : seg_ok flat (oi_parent x) (l2 ++ [u]) = true).
+      { unfold seg_ok. apply forallb_forall. intros y Hy. apply orb_true_iff. left. apply Z.eqb_eq.
+        rewrite (Hpar x (or_intror (or_intror Qx))). apply Hpar. right. right. rewrite E. apply in_or_app. right. right.
+        apply in_app_or in Hy as [Hy|[<-|[]]]; apply in_or_app; [left; exact Hy | right; left; reflexivity]. }
+      destruct (barrier_between_ssa_deps_partial flat _ x l2 u _ Ef Hms Hseg) as [_ [Hsub Hsync]].
+      rewrite Etree. rewrite gtop_app_noX.
+      2:{ intros z Hz. apply in_ins_maybe in Hz as [Hz|Hz]; [right | left; exact Hz].
+          apply (Nz z). left. apply in_or_app. left. exact Hz. }
+      cbn [guardedl_top]. rewrite guarded_For. rewrite guardedl_noX.
+      2:{ intros z Hz. apply in_ins_maybe in Hz as [Hz|Hz]; [right | left; exact Hz].
+          apply (Nz z). left. apply in_or_app. right. right. apply in_or_app. left. exact Hz. }
+      cbn [andb].
+      assert (EL : Lpost = (insert_syncs bars p1 ++ maybe_sync bars x) ++ x :: (out_between bars l2 u ++ u :: insert_syncs bars p3)).
+      { unfold Lpost, out_between, maybe_sync. rewrite E.
+        replace (p1 ++ x :: l2 ++ u :: p3) with (p1 ++ [x] ++ l2 ++ [u] ++ p3) by reflexivity.
+        rewrite !insert_syncs_app, !insert_syncs_one. repeat (rewrite <- app_assoc; cbn [app]). reflexivity. }
+      rewrite EL. apply guardedl_top_split.
+      * intros z Hz. apply in_ins_maybe in Hz as [Hz|Hz]; [right | left; exact Hz].
+        apply (Nz z). left. apply in_or_app. right. right. apply in_or_app. right. right. exact Hz.
+      * intros z Hz. apply in_app_or in Hz as [Hz|[<-|Hz]].
+        { destruct (Hsub z Hz) as [H|H]; [right; apply (Nz z); right; left; exact H | left; exact H]. }
+        { right. intros E'. apply Nxu. symmetry. exact E'. }
+        { apply in_insert_syncs_inv in Hz as [Hz|Hz]; [right; apply (Nz z); right; right; exact Hz | left; exact Hz]. }
+      * apply bar_follows_top_sync.
+        { destruct Hsync as [s [H1 [H2 _]]]. exists s. split; assumption. }
+        { intros z Hz. destruct (Hsub z Hz) as [H|H]; [right; apply (Nz z); right; left; exact H | left; exact H]. }
+    + assert (Ef : flat = (lp_pre q ++ f :: lp_body q ++ yld :: p1) ++ u :: l2 ++ x :: p3).
+      { unfold flat, lp_flat. rewrite E. rewrite <- !app_assoc. simpl. rewrite <- !app_assoc. reflexivity. }
+      rewrite Ef in Hnd. destruct (ids_distinct_3 _ _ _ _ _ Hnd) as [Nux Nz].
+      rewrite Etree. rewrite gtop_app_noX.
+      2:{ intros z Hz. apply in_ins_maybe in Hz as [Hz|Hz]; [right | left; exact Hz].
+          apply (Nz z). left. apply in_or_app. left. exact Hz. }
+      cbn [guardedl_top]. rewrite guarded_For. rewrite guardedl_noX.
+      2:{ intros z Hz. apply in_ins_maybe in Hz as [Hz|Hz]; [right | left; exact Hz].
+          apply (Nz z). left. apply in_or_app. right. right. apply in_or_app. left. exact Hz. }
+      cbn [andb].
+      assert (EL : Lpost = (insert_syncs bars p1 ++ maybe_sync bars u ++ u :: out_between bars l2 x) ++ x :: insert_syncs bars p3).
+      { unfold Lpost, out_between, maybe_sync. rewrite E.
+        replace (p1 ++ u :: l2 ++ x :: p3) with (p1 ++ [u] ++ l2 ++ [x] ++ p3) by reflexivity.
+        rewrite !insert_syncs_app, !insert_syncs_one. repeat (rewrite <- app_assoc; cbn [app]). reflexivity. }
+      rewrite EL. apply guardedl_top_split.
+      * intros z Hz. apply in_app_or in Hz as [Hz|Hz]; [apply in_insert_syncs_inv in Hz as [Hz|Hz]; [right | left; exact Hz]|].
+        { apply (Nz z). left. apply in_or_app. right. right. apply in_or_app. right. right. exact Hz. }
+        apply in_app_or in Hz as [Hz|[<-|Hz]].
+        { unfold maybe_sync in Hz. destruct (memb (oi_id u) bars); [|destruct Hz]. destruct Hz as [<-|[]]. left. reflexivity. }
+        { right. exact Nux. }
+        { unfold out_between in Hz. apply in_app_or in Hz as [Hz|Hz].
+          - apply in_insert_syncs_inv in Hz as [Hz|Hz]; [right; apply (Nz z); right; left; exact Hz | left; exact Hz].
+          - destruct (memb (oi_id x) bars); [|destruct Hz]. destruct Hz as [<-|[]]. left. reflexivity. }
+      * intros z Hz. apply in_insert_syncs_inv in Hz as [Hz|Hz]; [right; apply (Nz z); right; right; exact Hz | left; exact Hz].
+      * apply bar_follows_top_noU. intros z Hz.
+        apply in_insert_syncs_inv in Hz as [Hz|Hz]; [right; apply (Nz z); right; right; exact Hz | left; exact Hz].
 Qed.
